@@ -279,6 +279,53 @@ pub struct Local {
     pub accepted_bodies: Vec<Cand>,
 }
 
+/// For C02: the compiler's output for an accepted candidate, after and before optimisation
+/// (hook H1); None when the checker rejects the candidate or anything panics (C06 reports that).
+pub fn compile_both(c: &Cand, base: &Proj) -> Option<(uplc::ast::Program<uplc::ast::Name>, uplc::ast::Program<uplc::ast::Name>)> {
+    let src = source_of(&c.body);
+    guarded(|| {
+        let (mut ast, _) = aiken_lang::parser::module(&src, ModuleKind::Lib).ok()?;
+        ast.name = MODULE_NAME.to_string();
+        let mut warnings = vec![];
+        let mut p = base.clone();
+        let typed = ast.infer(&p.id_gen, ModuleKind::Lib, "test/project", &p.module_types, silent(), &mut warnings, None).ok()?;
+        typed.register_definitions(&mut p.functions, &mut p.constants, &mut p.data_types);
+        p.module_types.insert(MODULE_NAME.to_string(), typed.type_info.clone());
+        let f = crate::driver::functions_of(&typed).into_iter().find(|f| f.name == "f0").cloned()?;
+        let _ = aiken_lang::verif_hooks::drain_pre_optimisation();
+        let mut g = p.generator(silent());
+        let fin = g.generate_raw(&f.body, &f.arguments, MODULE_NAME);
+        let s0 = aiken_lang::verif_hooks::drain_pre_optimisation().pop()?;
+        Some((fin, s0))
+    })
+    .ok()
+    .flatten()
+}
+
+/// the product of the valid encodings of the parameters the body mentions (defaults elsewhere)
+pub fn arg_product(body: &str) -> Vec<Vec<RData>> {
+    let ps = params();
+    let used = mentioned(body);
+    let mut idx = vec![0usize; ps.len()];
+    let mut out = vec![];
+    loop {
+        out.push(ps.iter().enumerate().map(|(k, (_, _, vs))| vs[idx[k]].clone()).collect());
+        let mut k = 0;
+        loop {
+            if k == used.len() {
+                return out;
+            }
+            let p = used[k];
+            idx[p] += 1;
+            if idx[p] < ps[p].2.len() {
+                break;
+            }
+            idx[p] = 0;
+            k += 1;
+        }
+    }
+}
+
 pub fn budget() -> ExBudget {
     ExBudget { mem: 100_000_000, cpu: 100_000_000_000 }
 }
